@@ -207,7 +207,7 @@ theorem pyLower_ascii {p : Str} (h : ∀ c ∈ p, c.toNat < 128) : pyLower p = p
 
 /-- what `is_safe_uri` computes once the text before the first colon is known to hold no `#` -/
 theorem isSafeUri_pre {cfg : Cfg} {v pre r : Str} (hsp : split1 ':' v = (pre, some r)) (hhash : '#' ∉ pre) :
-    isSafeUri cfg v = cfg.safeSchemes.contains (pyLower (pre.filter isAlnum)) := by
+    isSafeUri cfg v = cfg.safeSchemes.contains (pyLower (pre.filter keepInScheme)) := by
   unfold isSafeUri
   by_cases hh : List.contains v '#' = true
   · obtain ⟨r', hr'⟩ := split1_colon_of_hash hsp hhash
@@ -226,46 +226,33 @@ theorem isSafeUri_pre {cfg : Cfg} {v pre r : Str} (hsp : split1 ':' v = (pre, so
     simp [hcol, hsp]
     intro hn; exact absurd (by simpa using hcol) hn
 
-/-- the characters of a scheme that `is_safe_uri` deletes and a browser keeps -/
-def isSchemePunct (c : Char) : Bool := c = '+' || c = '-' || c = '.'
+theorem isWsCtl_punct : isWsCtl '+' = false ∧ isWsCtl '-' = false ∧ isWsCtl '.' = false := by decide
 
-/-- a scheme with `+ - .` removed -/
-def dropPunct (s : Str) : Str := s.filter (fun c => !isSchemePunct c)
+/-- white space and control characters are dropped by `is_safe_uri` -/
+theorem keep_of_isWsCtl {c : Char} (h : isWsCtl c = true) : keepInScheme c = false := by
+  unfold keepInScheme
+  rw [isAlnum_of_isWsCtl h]
+  cases hp : isSchemePunct c with
+  | false => rfl
+  | true =>
+    unfold isSchemePunct at hp
+    simp only [Bool.or_eq_true, decide_eq_true_eq] at hp
+    rcases hp with (rfl | rfl) | rfl
+    · rw [isWsCtl_punct.1] at h; cases h
+    · rw [isWsCtl_punct.2.1] at h; cases h
+    · rw [isWsCtl_punct.2.2] at h; cases h
 
-theorem dropPunct_of_plain {s : Str} (hp : ∀ c ∈ s, c ≠ '+' ∧ c ≠ '-' ∧ c ≠ '.') : dropPunct s = s := by
-  unfold dropPunct
-  apply List.filter_eq_self.mpr
-  intro c hc
-  obtain ⟨h1, h2, h3⟩ := hp c hc
-  simp [isSchemePunct, h1, h2, h3]
-
-theorem punct_not_alnum : isAlnum '+' = false ∧ isAlnum '-' = false ∧ isAlnum '.' = false := by decide +kernel
-
-theorem schemeChar_cases {c : Char} (h : isSchemeChar c = true) :
-    (isSchemePunct c = true ∧ isAlnum c = false) ∨
-    (isSchemePunct c = false ∧ (isAsciiAlpha c = true ∨ isAsciiDigit c = true)) := by
+/-- every character of a scheme name is kept -/
+theorem keep_of_schemeChar {c : Char} (h : isSchemeChar c = true) : keepInScheme c = true := by
   unfold isSchemeChar at h
-  simp only [Bool.or_eq_true, decide_eq_true_eq] at h
+  unfold keepInScheme isSchemePunct
+  simp only [Bool.or_eq_true, decide_eq_true_eq] at h ⊢
   rcases h with (((h | h) | h) | h) | h
-  · right
-    refine ⟨?_, Or.inl h⟩
-    cases hp : isSchemePunct c with
-    | false => rfl
-    | true =>
-      unfold isSchemePunct at hp
-      simp only [Bool.or_eq_true, decide_eq_true_eq] at hp
-      rcases hp with (rfl | rfl) | rfl <;> simp [isAsciiAlpha] at h
-  · right
-    refine ⟨?_, Or.inr h⟩
-    cases hp : isSchemePunct c with
-    | false => rfl
-    | true =>
-      unfold isSchemePunct at hp
-      simp only [Bool.or_eq_true, decide_eq_true_eq] at hp
-      rcases hp with (rfl | rfl) | rfl <;> simp [isAsciiDigit] at h
-  · subst h; exact Or.inl ⟨by decide, punct_not_alnum.1⟩
-  · subst h; exact Or.inl ⟨by decide, punct_not_alnum.2.1⟩
-  · subst h; exact Or.inl ⟨by decide, punct_not_alnum.2.2⟩
+  · exact Or.inl (isAlnum_of_ascii (Or.inl h))
+  · exact Or.inl (isAlnum_of_ascii (Or.inr h))
+  · exact Or.inr (Or.inl (Or.inl h))
+  · exact Or.inr (Or.inl (Or.inr h))
+  · exact Or.inr (Or.inr h)
 
 theorem scheme_all_schemeChar {p : Str} (hs : isScheme p = true) : ∀ c ∈ p, isSchemeChar c = true := by
   cases p with
@@ -281,37 +268,11 @@ theorem scheme_all_schemeChar {p : Str} (hs : isScheme p = true) : ∀ c ∈ p, 
 theorem toNat_ofNat_valid {n : Nat} (h : n.isValidChar) : (Char.ofNat n).toNat = n := by
   simp [Char.ofNat, h, Char.ofNatAux, Char.toNat]
 
-theorem lower_punct (c : Char) : isSchemePunct (Genshi.Str.lower c) = isSchemePunct c := by
-  unfold Genshi.Str.lower
-  by_cases h : 'A' ≤ c ∧ c ≤ 'Z'
-  · simp only [h, and_self, ↓reduceIte]
-    rw [char_le_iff, char_le_iff] at h
-    have e1 : ('A' : Char).toNat = 65 := rfl
-    have e2 : ('Z' : Char).toNat = 90 := rfl
-    have hv : (c.toNat + 32).isValidChar := by unfold Nat.isValidChar; omega
-    have hn : (Char.ofNat (c.toNat + 32)).toNat = c.toNat + 32 := toNat_ofNat_valid hv
-    have hc1 : isSchemePunct c = false := by
-      unfold isSchemePunct
-      have a1 : c ≠ '+' := by intro e; subst e; simp at h
-      have a2 : c ≠ '-' := by intro e; subst e; simp at h
-      have a3 : c ≠ '.' := by intro e; subst e; simp at h
-      simp [a1, a2, a3]
-    have hc2 : isSchemePunct (Char.ofNat (c.toNat + 32)) = false := by
-      unfold isSchemePunct
-      have a1 : Char.ofNat (c.toNat + 32) ≠ '+' := by
-        intro e; have := congrArg Char.toNat e; rw [hn] at this; simp at this; omega
-      have a2 : Char.ofNat (c.toNat + 32) ≠ '-' := by
-        intro e; have := congrArg Char.toNat e; rw [hn] at this; simp at this; omega
-      have a3 : Char.ofNat (c.toNat + 32) ≠ '.' := by
-        intro e; have := congrArg Char.toNat e; rw [hn] at this; simp at this; omega
-      simp [a1, a2, a3]
-    rw [hc1, hc2]
-  · simp [h]
-
 /-- the browser's reading, unfolded: the scheme is the text before the first colon with white
-    space and controls removed; what `is_safe_uri` compares is that scheme without `+ - .` -/
-theorem browserScheme_pre' {v s : Str} (hb : browserScheme v = some s) :
-    ∃ pre r, split1 ':' v = (pre, some r) ∧ pyLower (pre.filter isAlnum) = dropPunct s ∧
+    space and controls removed, ASCII case folded — and that is exactly what `is_safe_uri`
+    compares with the safe schemes -/
+theorem browserScheme_pre {v s : Str} (hb : browserScheme v = some s) :
+    ∃ pre r, split1 ':' v = (pre, some r) ∧ pyLower (pre.filter keepInScheme) = s ∧
       ∀ x ∈ pre, isWsCtl x = true ∨ isSchemeChar x = true := by
   unfold browserScheme at hb
   simp only at hb
@@ -328,33 +289,20 @@ theorem browserScheme_pre' {v s : Str} (hb : browserScheme v = some s) :
       · simp only [hsch, ↓reduceIte, Option.some.injEq] at hb
         subst hb
         have hsc := scheme_all_schemeChar hsch
-        -- alphanumeric filtering = removal of white space, controls and `+ - .`
-        have hfilt : pre.filter isAlnum = (pre.filter fun c => !isWsCtl c).filter (fun c => !isSchemePunct c) := by
-          have h1 : pre.filter isAlnum = (pre.filter fun c => !isWsCtl c).filter isAlnum := by
+        have hfilt : pre.filter keepInScheme = pre.filter fun c => !isWsCtl c := by
+          have h1 : pre.filter keepInScheme = (pre.filter fun c => !isWsCtl c).filter keepInScheme := by
             rw [List.filter_filter]
             apply List.filter_congr
             intro c _
             cases hw : isWsCtl c with
             | false => simp
-            | true => simp [isAlnum_of_isWsCtl hw]
+            | true => simp [keep_of_isWsCtl hw]
           rw [h1]
-          apply List.filter_congr
+          apply List.filter_eq_self.mpr
           intro c hc
-          rcases schemeChar_cases (hsc c hc) with ⟨hp, ha⟩ | ⟨hp, ha⟩
-          · simp [hp, ha]
-          · simp [hp, isAlnum_of_ascii ha]
+          exact keep_of_schemeChar (hsc c hc)
         refine ⟨pre, r, rfl, ?_, ?_⟩
-        · rw [hfilt]
-          have hasc : ∀ c ∈ (pre.filter fun c => !isWsCtl c).filter (fun c => !isSchemePunct c), c.toNat < 128 := by
-            intro c hc
-            exact ascii_of_schemeChar (hsc c (List.mem_filter.mp hc).1)
-          rw [pyLower_ascii hasc]
-          unfold dropPunct
-          rw [List.filter_map]
-          congr 1
-          apply List.filter_congr
-          intro c _
-          simp [Function.comp, lower_punct]
+        · rw [hfilt, pyLower_ascii (fun c hc => ascii_of_schemeChar (hsc c hc))]
         · intro x hx
           cases hw : isWsCtl x with
           | true => exact Or.inl rfl
@@ -362,13 +310,6 @@ theorem browserScheme_pre' {v s : Str} (hb : browserScheme v = some s) :
             right
             exact hsc x (by simp [List.mem_filter, hx, hw])
       · simp [hsch] at hb
-
-theorem browserScheme_pre {v s : Str} (hb : browserScheme v = some s)
-    (hp : ∀ c ∈ s, c ≠ '+' ∧ c ≠ '-' ∧ c ≠ '.') :
-    ∃ pre r, split1 ':' v = (pre, some r) ∧ pyLower (pre.filter isAlnum) = s ∧
-      ∀ x ∈ pre, isWsCtl x = true ∨ isSchemeChar x = true := by
-  obtain ⟨pre, r, h1, h2, h3⟩ := browserScheme_pre' hb
-  exact ⟨pre, r, h1, by rw [h2, dropPunct_of_plain hp], h3⟩
 
 /-- a character that is neither white space/control nor a scheme character does not occur before
     the colon of such a URI -/
@@ -379,22 +320,11 @@ theorem not_mem_pre {pre : Str} (hall : ∀ x ∈ pre, isWsCtl x = true ∨ isSc
   · rw [h1] at h; cases h
   · rw [h2] at h; cases h
 
-/-- **`is_safe_uri` is sound for the browser's reading**, up to the `+ - .` of finding
-    C06-scheme-punct: if the URI is accepted and the browser sees a scheme made of letters and
-    digits only, that scheme is one of the configured safe schemes. -/
+/-- **`is_safe_uri` is sound for the browser's reading**: if the URI is accepted and a browser
+    reads a scheme in it, that scheme is one of the configured safe schemes. -/
 theorem isSafeUri_sound {cfg : Cfg} {v s : Str} (h : isSafeUri cfg v = true)
-    (hb : browserScheme v = some s) (hp : ∀ c ∈ s, c ≠ '+' ∧ c ≠ '-' ∧ c ≠ '.') :
-    s ∈ cfg.safeSchemes := by
-  obtain ⟨pre, r, hsp, hlow, hall⟩ := browserScheme_pre hb hp
-  have hhash : '#' ∉ pre := not_mem_pre hall (by decide) (by decide)
-  rw [isSafeUri_pre hsp hhash, hlow] at h
-  simpa using h
-
-/-- **what `is_safe_uri` guarantees for every accepted URI, without exception**: the scheme the
-    browser reads, with its `+ - .` removed, is one of the configured safe schemes. -/
-theorem isSafeUri_sound_mod_punct {cfg : Cfg} {v s : Str} (h : isSafeUri cfg v = true)
-    (hb : browserScheme v = some s) : dropPunct s ∈ cfg.safeSchemes := by
-  obtain ⟨pre, r, hsp, hlow, hall⟩ := browserScheme_pre' hb
+    (hb : browserScheme v = some s) : s ∈ cfg.safeSchemes := by
+  obtain ⟨pre, r, hsp, hlow, hall⟩ := browserScheme_pre hb
   have hhash : '#' ∉ pre := not_mem_pre hall (by decide) (by decide)
   rw [isSafeUri_pre hsp hhash, hlow] at h
   simpa using h
